@@ -58,6 +58,13 @@ def gen_cases(tier, seed):
         nsh = int(rng.integers(2, 4))
         ls = [int(x) for x in rng.integers(0, 3, size=nsh)]
         shells, classes = bases.rand_basis(rng, ls, scale=1.0, emax_fn=lambda l: 50.0, Kmax=3, Mmax=2)
+        if i % 3 == 2:
+            # the shells of the shared basis are built on Fortran-ordered / strided / transposed-view coefficient arrays etc.
+            shells, classes = bases.add_argrep(bases.rng_for("C19", seed, tier, "argrep", i), shells, classes)
+            for s_ in shells:
+                s_.pop("ic", None)
+                if (s_.get("rep") or {}).get("c") == "int":
+                    s_["rep"].pop("c")
         nops = int(rng.integers(5, 31))
         ops = []
         for k in range(nops):
